@@ -1,6 +1,6 @@
 ENGINES = [
     {'name': 'mirsym', 'path': '/verif/mirsym',
-     'serves_properties': ['C01', 'C03', 'C04', 'C05', 'C09', 'C12', 'C16', 'C17', 'C18', 'C19'],
+     'serves_properties': ['C01', 'C03', 'C04', 'C05', 'C07', 'C09', 'C12', 'C16', 'C17', 'C18', 'C19'],
      'kind_free_text': 'symbolic executor over the MIR that rustc emits for /repo\'s working tree (regenerated per tree state); std modelled at the call boundary; z3 QF_BV decides every branch and every obligation; counterexamples replayed natively through /verif/replay'},
 ]
 NOTES = 'Every check: exit 0 = held for all inputs inside the stated bounds (KNOWN-FINDING lines allowed); exit 1 = natively reproducing violation; exit 2 = inconclusive (unsupported construct, solver unknown, model/native mismatch, vacuous harness) and is never reported as a pass.'
@@ -66,10 +66,16 @@ CHECKS['C03'] = {
     'note': 'file system and serde_json are models (map path -> content; injective codec); the hook dispatch that decides WHEN these helpers run is not encoded; `.` pathspecs are outside (helper matches literal prefixes)',
     'technique': 'MIR symbolic execution + z3 (bounded) over a model file system, native replay on a scratch repository',
 }
+CHECKS['C07'] = {
+    'text': 'Kernel claim. Bounded symbolic execution of the real private-state readers and writers over a model file system in which every call may fail and every file may hold arbitrary bytes: the journal parser always succeeds, skips malformed lines and keeps the well-formed events in order; appending an event prepends it, fails only on an I/O error, never panics, and whatever happened the journal stays readable with no event invented or lost; INITIAL reads as empty whenever it is missing / corrupt / unreadable; a corrupt checkpoints file yields an error or nothing, never invented entries, and the next append still succeeds; exit_with_status exits with exactly the child\'s code or re-raises exactly the child\'s signal (symbolic code / signal).',
+    'design_ref': 'DESIGN.md §4 C07',
+    'note': 'crash points inside a write, the catch_unwind guard and the pre-commit refusal in handle_git, and containment of failing internal git calls (K4) are not encoded; serde_json is the codec model',
+    'technique': 'MIR symbolic execution + z3 (bounded) over a fault-injecting model file system, native replay',
+}
 _PENDING = 'check not built yet in this round (under construction; see DESIGN.md §4)'
 NOT_APPLICABLE = {
     'C02': _PENDING,  'C06': _PENDING,
-    'C07': _PENDING, 'C08': _PENDING,  'C14': _PENDING, 'C15': _PENDING,
+     'C08': _PENDING,  'C14': _PENDING, 'C15': _PENDING,
     'C20': _PENDING,
     'C10': 'convergence of notes across clones is decided by git\'s notes-merge / ref-transaction semantics over several repositories; git-ai\'s part is a fixed sequence of subprocess calls with no branch the solver could decide (DESIGN.md §7)',
     'C11': 'interleavings of processes over a file system and git ref locks; neither Kani nor the MIR executor models OS-level concurrency (DESIGN.md §7)',
